@@ -118,7 +118,11 @@ class GFFPrinter:
                     model.add_additional_attribute("exons", str(len(model.exon_blocks)))
                 transcript_additiional_info = ""
                 if gene_info and model.transcript_id in gene_info.feature_attributes:
-                    transcript_additiional_info = " " + gene_info.feature_attributes[model.transcript_id]
+                    # attributes copied from the annotation, except those computed anew for this run (e.g. Canonical
+                    # when the annotation is an earlier IsoQuant output)
+                    annotated = [a.strip() for a in gene_info.feature_attributes[model.transcript_id].split(";") if a.strip()]
+                    annotated = [a for a in annotated if not model.check_additional(a.split(" ")[0])]
+                    transcript_additiional_info = "".join(" " + a + ";" for a in annotated)
 
                 transcript_line = '%s\t%s\ttranscript\t%d\t%d\t.\t%s\t.\tgene_id "%s"; transcript_id "%s"; %s\n' \
                                   % (model.chr_id,  model.source, model.exon_blocks[0][0], model.exon_blocks[-1][1],
